@@ -146,6 +146,17 @@ impl World {
                 self.op_timetravel(i, *heads)?;
                 self.after_step(&[i])
             }
+            Op::MergeCommit { r, from, edit } => {
+                let i = self.rix(*r);
+                let j = self.peer(i, *from);
+                self.op_commit(j, None)?;
+                self.after_step(&[j])?;
+                self.op_meld(i, j)?;
+                self.op_refresh(i)?;
+                self.op_update(i, edit)?;
+                self.op_commit(i, None)?;
+                self.after_step(&[i])
+            }
             Op::LowLevel { r, kind, id, content } => {
                 let i = self.rix(*r);
                 self.op_lowlevel(i, *kind, *id, &content.to_value())?;
